@@ -68,6 +68,7 @@ impl<'a> Runner<'a> {
             wrr(&mut c.er, df, dsz, dval);
         }
         gen::maybe_bus(&mut self.rng, &mut c);
+        gen::maybe_io(&mut self.rng, &mut c);
         let obs = self.lock.run(&c);
         let judged = record(self.rep, self.check, &c, &obs, &self.judge);
         if judged {
